@@ -96,7 +96,11 @@ func verifHarnessC19() {
 		switch cmds[verifChoice("cmd", len(cmds))] {
 		case cSet:
 			v := vVal19("v")
-			ttlSteps := verifChoice("ttl", 3) // 0 = none, 1 = expires at the next step, 2 = far away
+			nttl := 3
+			if verifParam("negttl") == 1 {
+				nttl = 4
+			}
+			ttlSteps := verifChoice("ttl", nttl) // 0 = none, 1 = expires at the next step, 2 = far away, 3 = NEGATIVE (already past)
 			var ttl time.Duration
 			exp := 0
 			switch ttlSteps {
@@ -104,6 +108,8 @@ func verifHarnessC19() {
 				ttl, exp = time.Millisecond, now+1
 			case 2:
 				ttl, exp = time.Hour, now+3600000
+			case 3:
+				ttl, exp = -time.Second, now // a deadline in the past: absent from the next command on
 			}
 			verifAssert(dts.Set(key, v, ttl) == nil, "C19.set-err")
 			st[ki] = &vKey{kind: vString, str: vcp(v), expire: exp}
